@@ -1096,6 +1096,21 @@ func (e *Env) modTarget(m string) (mt modTarget, err error) {
 		}
 	}
 	switch n := ex.(type) {
+	case *ast.Ident:
+		// a package-level variable of the contract's package
+		if e.pkg != nil {
+			if _, ok := e.pkg.Scope().Lookup(n.Name).(*types.Var); ok {
+				if sp := f.vc.w.pkgs[e.pkg.Path()]; sp != nil {
+					if g, ok := sp.Members[n.Name].(*ssa.Global); ok {
+						if a, ok := f.value(g, pre.st).(*Addr); ok && a.Kind == aGlobal {
+							key := f.compKey("G:", strings.TrimPrefix(a.Key, "G:"), a.Sort)
+							return modTarget{whole: true, key: key}, nil
+						}
+					}
+				}
+			}
+		}
+		return mt, fmt.Errorf("unsupported modifies target %q", m)
 	case *ast.SelectorExpr:
 		base, bt := pre.expr(n.X, sRef)
 		st, ptr := structOf(bt)
